@@ -570,6 +570,12 @@ def _lin_expand(op, args, positions):
     total = ZERO
     for mono, c in a.terms.items():
         new = list(args)
+        # literal scalars (the imaginary unit `lit:1j`, ...) are numbers: they factor out of a linear operation like the coefficient
+        lits = tuple((a_, pw_) for a_, pw_ in mono if isinstance(a_, Sym) and a_.name.startswith("lit:") and a_.name[4:5] not in ("'", '"'))
+        if lits and len(lits) < len(mono):
+            new[pos] = Poly({tuple((a_, pw_) for a_, pw_ in mono if (a_, pw_) not in lits): _F1})
+            total = total + c * Poly({lits: _F1}) * _lin_expand(op, new, rest)
+            continue
         new[pos] = Poly({mono: _F1})
         total = total + c * _lin_expand(op, new, rest)
     return total
